@@ -705,7 +705,7 @@ fn check_run_inner(spec: &Spec, at: &AttrSpec, cfg: &Cfg, run: &Run, orc: &mut F
     // rounding envelope: the tessellator snaps an intersection to an edge end within 3.2e-5
     // (`is_near`); off the lattice a vertex within the fill tolerance of an edge is treated as
     // lying on it, so the tolerance is added there
-    let env = 4e-5 + 64.0 * EPS32 * scale + if spec.lattice() { 0.0 } else { cfg.tol as f64 };
+    let env = 4e-5 + 64.0 * EPS32 * scale + if spec.lattice() && cfg.tol <= 0.0101 { 0.0 } else { cfg.tol as f64 };
     let lvl = 4e-5 + 64.0 * EPS32 * scale;
     let pts = spec.endpoints();
     if std::env::var("C07_DUMP").is_ok() {
